@@ -61,6 +61,9 @@ pub struct Prog {
     pub threads: Vec<Vec<TOp>>,
     pub strict_unlink: bool,
     pub fs_switch: bool,
+    /// C11: at every file removal take the image and check afterwards that a crash at that
+    /// moment recovers every acknowledged write (single-writer programs only)
+    pub recover_at_removals: bool,
 }
 
 pub fn val(id: u16, size: u32) -> Vec<u8> {
@@ -84,6 +87,7 @@ impl Prog {
             "threads": self.threads.iter().map(f).collect::<Vec<_>>(),
             "strict_unlink": self.strict_unlink,
             "fs_calls_are_switch_points": self.fs_switch,
+            "crash_recovery_checked_at_every_file_removal": self.recover_at_removals,
         })
     }
 }
@@ -266,6 +270,9 @@ fn prog_body(prog: &Prog, log: &Arc<Mutex<Vec<Event>>>, stale: &Arc<AtomicU64>) 
     let log2 = log;
     let fs = VerifFs::new();
     fs.set_strict_unlink(prog.strict_unlink);
+    if prog.recover_at_removals {
+        fs.state().removal_clock = Some(&CLOCK);
+    }
     let opts = db_options(&fs, &prog.cfg);
     let db = match DB::open(opts) {
         Ok(db) => Arc::new(db),
@@ -308,6 +315,82 @@ fn prog_body(prog: &Prog, log: &Arc<Mutex<Vec<Event>>>, stale: &Arc<AtomicU64>) 
         Ok(db) => drop(db),
         Err(_) => panic!("harness: database handle still shared at the end"),
     }
+    if prog.recover_at_removals {
+        let snaps = std::mem::take(&mut fs.state().removal_snaps);
+        let events = log2.lock().unwrap().clone();
+        if let Some(msg) = check_removal_snapshots(prog, &fs, &events, &snaps) {
+            log2.lock().unwrap().push(Event {
+                thread: 98,
+                op: TOp::Flush,
+                invoke: u64::MAX - 1,
+                ret: u64::MAX,
+                res: Res::Err(msg),
+            });
+        }
+    }
+}
+
+/// For every removal: recover from the image right after it; the contents must be the model of
+/// the writes acknowledged by then, or that plus the one write in flight.
+fn check_removal_snapshots(prog: &Prog, fs: &VerifFs, events: &[Event], snaps: &[(u64, std::path::PathBuf, crate::vfs::Image)]) -> Option<String> {
+    let mut writes: Vec<&Event> = events.iter().filter(|e| matches!(e.op, TOp::Put(..) | TOp::Del(..) | TOp::Batch(..))).collect();
+    writes.sort_by_key(|e| e.invoke);
+    // single-writer discipline: no two writes overlap in time
+    for w in writes.windows(2) {
+        if w[1].invoke < w[0].ret {
+            return None;
+        }
+    }
+    let dirs = fs.dirs();
+    for (tick, path, image) in snaps {
+        let mut m = M::new();
+        let mut cands: Vec<M> = vec![];
+        let mut in_flight_done = false;
+        for w in writes.iter() {
+            // `tick` is the value of the clock at the removal = the number the *next* event
+            // boundary will get: a write has returned iff its return stamp is smaller
+            if w.ret < *tick {
+                apply_model(&mut m, &w.op, prog.keys.len());
+            } else if w.invoke < *tick && !in_flight_done {
+                cands.push(m.clone());
+                let mut m2 = m.clone();
+                apply_model(&mut m2, &w.op, prog.keys.len());
+                cands.push(m2);
+                in_flight_done = true;
+            }
+        }
+        if cands.is_empty() {
+            cands.push(m.clone());
+        }
+        let rfs = VerifFs::from_image(image, &dirs);
+        let db = match DB::open(db_options(&rfs, &prog.cfg)) {
+            Ok(db) => db,
+            Err(e) => {
+                return Some(format!(
+                    "C11 needed file removed: after the removal of {} a crash image cannot be opened: {}",
+                    path.file_name().map(|s| s.to_string_lossy().to_string()).unwrap_or_default(),
+                    e
+                ))
+            }
+        };
+        let mut got = M::new();
+        for (i, k) in prog.keys.iter().enumerate() {
+            if let Ok(Some(v)) = db_get(&db, k, None) {
+                got.insert(i as u8, v);
+            }
+        }
+        drop(db);
+        if !cands.contains(&got) {
+            let sh = |m: &M| format!("{{{}}}", m.iter().map(|(k, v)| format!("{}={}", esc(&prog.keys[*k as usize]), show_val(v))).collect::<Vec<_>>().join(", "));
+            return Some(format!(
+                "C11 needed file removed: a crash right after the removal of {} recovers {} but the writes acknowledged by then give {}",
+                path.file_name().map(|s| s.to_string_lossy().to_string()).unwrap_or_default(),
+                sh(&got),
+                cands.iter().map(sh).collect::<Vec<_>>().join(" or ")
+            ));
+        }
+    }
+    None
 }
 
 /// One execution of the program; returns the history (only meaningful if the outcome is Ok).
@@ -448,7 +531,9 @@ pub fn judge(prog: &Prog, out: &Outcome, events: &[Event], stale_uses: u64, atom
     }
     for e in events {
         if let Res::Err(m) = &e.res {
-            let clause = if m.contains("removed file") || m.contains("Could not find the file") {
+            let clause = if m.starts_with("C11 needed file removed") {
+                "C11.needed_file_removed"
+            } else if m.contains("removed file") || m.contains("Could not find the file") {
                 "C11.live_deleted"
             } else if matches!(e.op, TOp::Get(_) | TOp::SnapRead(_) | TOp::IterScan) {
                 "C05.read_err"
